@@ -447,6 +447,45 @@ def _valid_ids_rule(ctx, mut: Mutations) -> Optional[Set[str]]:
                                                                      'dataclasses.replace', 'replace'):
                 run.violation('C14.valid-ids', fn.module.name, fn.qualname, c,
                               'NamespaceIds may be created without its validating __post_init__', node=c)
+    def valid_source(fn, e, depth=0) -> bool:
+        """`e` yields identifiers that were taken out of NamespaceIds instances (validated when those were constructed)."""
+        if depth > 6 or e is None:
+            return False
+        env = ctx.cg.env(fn)
+        if isinstance(e, ast.Attribute) and e.attr == 'items':
+            return strip_opt(env.type_of(e.value)) == ('cls', nids.fq)
+        if isinstance(e, ast.Subscript) and isinstance(e.slice, ast.Slice):
+            return valid_source(fn, e.value, depth + 1)
+        if isinstance(e, ast.BinOp) and isinstance(e.op, ast.Add):
+            return valid_source(fn, e.left, depth + 1) and valid_source(fn, e.right, depth + 1)
+        if isinstance(e, ast.Starred):
+            return valid_source(fn, e.value, depth + 1)
+        if isinstance(e, (ast.List, ast.Tuple)):
+            return all(isinstance(x, ast.Starred) and valid_source(fn, x.value, depth + 1) for x in e.elts)
+        if isinstance(e, ast.Call):
+            fname = ast.unparse(e.func)
+            if fname in ('list', 'tuple', 'reversed', 'iter') and len(e.args) == 1 and not e.keywords:
+                return valid_source(fn, e.args[0], depth + 1)
+            if fname in ('chain', 'itertools.chain') and e.args and not e.keywords:
+                return all(valid_source(fn, a, depth + 1) for a in e.args)
+            if fname in ('chain.from_iterable', 'itertools.chain.from_iterable') and len(e.args) == 1:
+                g = e.args[0]
+                if isinstance(g, (ast.GeneratorExp, ast.ListComp)) and not any(x.ifs and False for x in g.generators):
+                    return valid_source(fn, g.elt, depth + 1)
+                return False
+            return False
+        if isinstance(e, (ast.GeneratorExp, ast.ListComp)):
+            # [x for y in ys for x in y.items]: the element is a variable ranging over a valid source
+            if isinstance(e.elt, ast.Name):
+                for g in e.generators:
+                    if isinstance(g.target, ast.Name) and g.target.id == e.elt.id:
+                        return valid_source(fn, g.iter, depth + 1)
+            return False
+        if isinstance(e, ast.Name):
+            d = env.single_def(e.id)
+            return d is not None and valid_source(fn, d, depth + 1)
+        return False
+
     allowed_writers = {'NamespaceIds.__iadd__', 'scope_resolution_order'}
     n_w = 0
     for fq, evs in mut.events.items():
@@ -468,6 +507,10 @@ def _valid_ids_rule(ctx, mut: Mutations) -> Optional[Set[str]]:
             elif ev.fn.qualname in allowed_writers and fresh and 'pop' in ev.how:
                 run.holds('C14.valid-ids', ev.fn.module.name, ev.fn.qualname, ev.node,
                           'removes identifiers from its own deep copy', node=ev.node)
+            elif fresh and ev.how.endswith('.extend()') and isinstance(ev.node, ast.Call) and len(ev.node.args) == 1 and \
+                    valid_source(ev.fn, ev.node.args[0]):
+                run.holds('C14.valid-ids', ev.fn.module.name, ev.fn.qualname, ev.node,
+                          'extends an instance of its own with identifiers taken out of other (validated) NamespaceIds', node=ev.node)
             else:
                 run.violation('C14.valid-ids', ev.fn.module.name, ev.fn.qualname, ev.node,
                               f'{ev.how} on `{ast.unparse(ev.receiver)[:50]}`: items of a NamespaceIds are written '
